@@ -19,7 +19,7 @@ const fn e(rust: &'static str, copy: bool, token: bool, zst_counted: bool, dropp
     MenuEntry { rust, copy, token, zst_counted, droppable, serde_ok }
 }
 
-pub const MENU: [MenuEntry; 34] = [
+pub const MENU: [MenuEntry; 36] = [
     e("u8", true, false, false, false, true),
     e("u16", true, false, false, false, true),
     e("u32", true, false, false, false, true),
@@ -54,6 +54,8 @@ pub const MENU: [MenuEntry; 34] = [
     e("vtypes::BigTok", false, true, false, true, true),
     e("Vec<vtypes::Tok8>", false, true, false, true, true),
     e("[u64; 12]", true, false, false, false, true),
+    e("vtypes::A64", true, false, false, false, true),
+    e("vtypes::Wide320", true, false, false, false, true),
 ];
 
 /// Evaluates `$body` with `$t` bound to the menu type of index `$idx`.
@@ -94,7 +96,9 @@ macro_rules! with_menu_type {
             30 => { type $t = [u8; 5]; $body }
             31 => { type $t = $crate::BigTok; $body }
             32 => { type $t = Vec<$crate::Tok8>; $body }
-            _ => { type $t = [u64; 12]; $body }
+            33 => { type $t = [u64; 12]; $body }
+            34 => { type $t = $crate::A64; $body }
+            _ => { type $t = $crate::Wide320; $body }
         }
     };
 }
